@@ -150,7 +150,7 @@ def probe_settled(th, timeout=3.0):
 
 
 class Env:
-    def __init__(self, callers, kind, plan, cls="Transport", jitter=None):
+    def __init__(self, callers, kind, plan, cls="Transport", jitter=None, role="server"):
         self.callers = list(callers)       # [(api, mode)] ; free plan: [(api, mode, when)]
         self.kind, self.plan, self.cls = kind, plan, cls
         self.jitter = jitter
@@ -165,9 +165,11 @@ class Env:
         self.dead_logged = False
         self.notes = []
         fams = {family(c[0]) for c in self.callers}
-        self.victim_is_server = "accept" in fams
+        # accept() is one API for both roles: role = which end of the session the accept() callers use
+        self.end = role if "accept" in fams else "client"
+        self.victim_is_server = self.end == "server"
         if self.victim_is_server and fams != {"accept"}:
-            raise ValueError("accept cannot be mixed with client-side calls")
+            raise ValueError("accept on the server end cannot be mixed with client-side calls")
         self.pre_auth = bool(fams & {"auth", "srtauth"})
         if self.pre_auth and not fams <= {"auth", "srtauth"}:
             raise ValueError("auth calls cannot be mixed with calls that need an authenticated session")
@@ -559,7 +561,7 @@ class Env:
             events = list(self.events)
         obs = {"callers": [list(c) for c in self.callers], "kind": self.kind, "plan": plan, "cls": self.cls,
                "events": events, "results": [dict(r) for r in self.results], "blocked": blocked,
-               "active": self.active(), "established": est, "notes": list(self.notes), "D": D}
+               "active": self.active(), "established": est, "notes": list(self.notes), "D": D, "role": self.end}
         self.cleanup()
         return obs
 
@@ -597,8 +599,8 @@ class Env:
             pass
 
 
-def run_case(callers, kind, plan, cls="Transport", D=2.0, jitter=None):
-    env = Env(callers, kind, plan, cls, jitter)
+def run_case(callers, kind, plan, cls="Transport", D=2.0, jitter=None, role="server"):
+    env = Env(callers, kind, plan, cls, jitter, role)
     try:
         return env.run(D)
     except Exception:
